@@ -45,6 +45,7 @@ var (
 	rounds   = flag.Int("rounds", 1, "fault rounds")
 	basePort = flag.Int("base_port", 23000, "first port")
 	outPath  = flag.String("out", "", "JSON lines output")
+	modFlag  = flag.Bool("mod", false, "inject a message of death (PANIC command) in every round (property C07)")
 )
 
 // ---------------------------------------------------------------- reporting
@@ -188,6 +189,9 @@ func (c *cluster) startNode(n *node, bootstrap string) error {
 	}
 	cmd := exec.Command(*binPath, args...)
 	cmd.Env = append(os.Environ(), "ROBUSTIRC_NETWORK_PASSWORD="+password, "GORACE=halt_on_error=0 log_path="+filepath.Join(n.dir, "race"))
+	if *modFlag {
+		cmd.Env = append(cmd.Env, "ROBUSTIRC_TESTING_ENABLE_PANIC_COMMAND=1")
+	}
 	lf, _ := os.OpenFile(filepath.Join(n.dir, "stderr.txt"), os.O_CREATE|os.O_APPEND|os.O_WRONLY, 0644)
 	cmd.Stdout, cmd.Stderr = lf, lf
 	cmd.SysProcAttr = &syscall.SysProcAttr{Setpgid: true}
@@ -197,7 +201,14 @@ func (c *cluster) startNode(n *node, bootstrap string) error {
 	lf.Close()
 	n.cmd = cmd
 	n.stopped = false
-	go cmd.Wait()
+	go func() {
+		cmd.Wait()
+		n.mu.Lock()
+		if n.cmd == cmd {
+			n.stopped = true // exited by itself (or was killed)
+		}
+		n.mu.Unlock()
+	}()
 	return nil
 }
 
@@ -704,6 +715,9 @@ func (c *cluster) round(seed int64, r int) {
 		}
 	}
 	wg.Wait()
+	if *modFlag {
+		c.messageOfDeath(r, seed, senders[nS-1], nextCm, viol, &faults)
+	}
 	for _, n := range c.nodes {
 		n.signal(syscall.SIGCONT)
 		if !n.alive() {
@@ -845,6 +859,105 @@ func (c *cluster) round(seed int64, r int) {
 	}
 	rep.sample(map[string]interface{}{"seed": seed, "faults": faults, "acknowledged": acked / (nO * 3), "open": open / (nO * 3)})
 	_ = strconv.Itoa
+}
+
+// messageOfDeath (C07, three nodes): a client posts the test-only PANIC command.
+// Every node must terminate; after restarting all of them the network must be
+// healthy again, the retry of the same client message id must be acknowledged
+// without another crash, and new messages must be applied.
+func (c *cluster) messageOfDeath(r int, seed int64, s *session, nextCm func() uint64, viol func(prop, key, what string, w map[string]interface{}), faults *[]string) {
+	for _, n := range c.nodes {
+		n.signal(syscall.SIGCONT)
+		if !n.alive() {
+			c.startNode(n, "")
+		}
+	}
+	if !c.waitHealthy(90*time.Second, 3) {
+		c.rep.inconclusive(fmt.Sprintf("round %d: network not healthy before the message of death", r))
+		return
+	}
+	cm := nextCm()
+	body, _ := json.Marshal(struct {
+		Data            string
+		ClientMessageId uint64
+	}{"PANIC", cm})
+	code, _, err := c.do(c.nodes[int(seed)%3], "POST", "/robustirc/v1/"+s.Id+"/message", map[string]string{"X-Session-Auth": s.Auth, "Content-Type": "application/json"}, body, 15*time.Second)
+	*faults = append(*faults, "message-of-death")
+	if err == nil && code == 200 {
+		viol("C07", "cluster:crashing-entry-acknowledged", "the PANIC entry was acknowledged with 200 instead of terminating the nodes", nil)
+	}
+	// The nodes that apply the entry terminate: at least the leader. A follower that
+	// had not learnt that the entry is committed applies it (and terminates, once)
+	// only after a new leader tells it, i.e. after the others were restarted.
+	deaths := map[int]int{}
+	deadline := time.Now().Add(30 * time.Second)
+	for time.Now().Before(deadline) {
+		dead := 0
+		for _, n := range c.nodes {
+			if !n.alive() {
+				dead++
+			}
+		}
+		if dead > 0 {
+			break
+		}
+		time.Sleep(200 * time.Millisecond)
+	}
+	any := false
+	for _, n := range c.nodes {
+		if !n.alive() {
+			any = true
+		}
+	}
+	if !any {
+		viol("C07", "cluster:no-node-terminated", "no node terminated within 30s after the crashing entry was posted", nil)
+		return
+	}
+	stableSince := time.Time{}
+	recover := time.Now().Add(150 * time.Second)
+	for time.Now().Before(recover) {
+		for _, n := range c.nodes {
+			if !n.alive() {
+				deaths[n.idx]++
+				if deaths[n.idx] > 1 {
+					viol("C07", "cluster:node-dies-again-on-restart", fmt.Sprintf("node %d terminated a second time after it had been restarted on its directory: %.300s", n.idx, tailFile(filepath.Join(n.dir, "stderr.txt"))), nil)
+					return
+				}
+				c.startNode(n, "")
+				*faults = append(*faults, fmt.Sprintf("restart-after-mod(%d)", n.idx))
+				stableSince = time.Time{}
+			}
+		}
+		if c.waitHealthy(3*time.Second, 3) {
+			if stableSince.IsZero() {
+				stableSince = time.Now()
+			} else if time.Since(stableSince) > 6*time.Second {
+				break
+			}
+		} else {
+			stableSince = time.Time{}
+		}
+		time.Sleep(500 * time.Millisecond)
+	}
+	if stableSince.IsZero() || time.Since(stableSince) < 6*time.Second {
+		c.rep.inconclusive(fmt.Sprintf("round %d: network not stable 150s after the message of death (deaths %v)", r, deaths))
+		return
+	}
+	c.rep.Obs("mod.node-deaths", len(deaths))
+	// the bridge retries the same client message id: must be recognised, not applied again
+	st := c.post(s, "PANIC", cm, 0, time.Now().Add(40*time.Second))
+	time.Sleep(2 * time.Second)
+	for _, n := range c.nodes {
+		if !n.alive() {
+			viol("C07", "cluster:retry-crashes-again", fmt.Sprintf("node %d terminated when the crashing message was retried with the same client message id (marker not advanced)", n.idx), nil)
+			c.startNode(n, "")
+		}
+	}
+	if !st.acked {
+		c.rep.Obs("mod.retry-not-acknowledged", 1)
+	}
+	c.rep.Case("message-of-death|three-nodes", 3)
+	c.rep.Obs("mod.rounds", 1)
 }
 
 func sortStrings(s []string) {
